@@ -197,6 +197,23 @@ def family_db_views(seed):
     fam.append([P("a", "1"), D("a"), P("a", "2"), D("a"), P("b", "1"), P("a", "3"), S, D("a"), D("b")])
     # deeper levels: data pushed down by repeated compaction, then shadowed / deleted above
     fam.append([P("a", "old"), P("m", "old"), P("z", "old"), F, C, P("m", "new"), F, S, D("m"), F, C, D("a"), F, S, C])
+    # F11 (fixed): a compaction whose level inputs are EXPANDED must keep the boundary file of its
+    # parent-level inputs - level 3 = [a..b5] [b7..DEL(k)] [k@1] (the two versions of k straddle two
+    # files because a snapshot was alive when they were written and the output was cut behind the
+    # large value), level 2 = [a2..b8] [c..c2]; compacting only [c..c2] of level 2 expands to
+    # {[a2..b8], [c..c2]} x {[a..b5], [b7..DEL(k)]} - and, before the repair, left [k@1] behind
+    # while the tombstone was dropped as "base level": the deleted key came back.
+    CL = lambda level, lo, hi: ["compact_level", str(level), a(lo) if lo is not None else "-", a(hi) if hi is not None else "-"]
+    REL, SMALL = ["release"], ["reopen_small", "4096"]
+    st = 12345
+    fill = bytearray()
+    for _ in range(5000):
+        st = (st * 1664525 + 1013904223) & 0xffffffff
+        fill.append(st >> 24)
+    PF = lambda k: ["put", a(k), bytes(fill).hex()]
+    fam.append([SMALL, P("k", "old"), S, PF("b7"), D("k"), F, CL(2, None, None), REL,
+                P("a", "x"), P("b5", "x"), F, CL(2, "a", "b5"),
+                P("a2", "y"), P("b8", "y"), F, P("c", "y"), P("c2", "y"), F, CL(2, "c", "c2")])
     # pseudo-random histories over a small key space
     x = (seed * 2654435761 + 12345) & 0xffffffff
     def rnd(n):
